@@ -6,6 +6,7 @@ SideState objects with fully symbolic fields.
 The classes are the repository's own (methods are resolved in the real source); only the object
 *state* is symbolic.
 """
+import ast
 import z3
 from .values import (C, S, E, O, R, T, U, NONE, TRUE, FALSE, BT, BF, zand, zor, znot, alts, mk_union, ite, py_of,
                      is_concrete, ClassRef, Builtin, EnumMember, FuncRef, BoundMethod)
@@ -637,6 +638,27 @@ def _translate_call(eng, st, fv, args, kwargs):
 # lemma-facing fixture and DSL builtins
 # ---------------------------------------------------------------------------------------------
 
+def _require_function(eng, qualname):
+    """a lemma names a callee (stub / inline) that must exist in the source under verification; if it was renamed or
+    removed the *contract* is out of date -- that is a checker fault to be fixed in /verif, never a violation"""
+    modname, _, rest = qualname.partition(":")
+    try:
+        mod = eng.repo.module(modname)
+    except KeyError:
+        raise OutOfSubset("contract out of date: module %s named by the lemma does not exist" % modname)
+    parts = rest.split(".")
+    if len(parts) == 1:
+        ok = parts[0] in mod.functions
+    else:
+        ci = mod.classes.get(parts[0])
+        nm = parts[1]
+        if nm.startswith("_%s__" % parts[0]):
+            nm = nm[len(parts[0]) + 1:]
+        ok = ci is not None and any(isinstance(n, (ast.FunctionDef,)) and n.name == nm for n in ci.node.body)
+    if not ok:
+        raise OutOfSubset("contract out of date: %s named by the lemma does not exist in the source" % qualname)
+
+
 def fx_world(eng, st, pname):
     install_provider_api(eng)
     install_state_contracts(eng)
@@ -652,6 +674,8 @@ def fx_world(eng, st, pname):
         eng.handlers["clock"] = lambda e, s_, r, a, k: e.ok(s_, named("real", "clock.now"))
     for nm in eng.cur_lemma.opts.get("inline", ()):
         eng.handlers.pop(nm, None)
+    for nm in list(eng.cur_lemma.opts.get("stubs", {})) + list(eng.cur_lemma.opts.get("inline", ())):
+        _require_function(eng, nm)
     for nm, spec in eng.cur_lemma.opts.get("stubs", {}).items():
         eng.handlers[nm] = make_stub(nm, tuple(spec.get("results", ("FINISHED", "PUNT", "REQUEUE"))),
                                      spec.get("raises", True), spec.get("havoc", True))
